@@ -14,3 +14,5 @@ def run(out, sc, tier, seed):
     run_progs(out, sc, "C11", {"gen": "progs", "n": n, "seed": seed, "surrogate_p": 0.02, "fields": FIELDS,
                                "build_p": 0.15, "depths": [1, 2, 2, 3]}, "progs")
     run_harvest(out, sc, "C11")
+    from .common import run_witnesses
+    run_witnesses(out, sc, "C11", fields=FIELDS)
